@@ -31,6 +31,7 @@ type Cfg struct {
 	PoolPoints   bool   `json:"pool_points,omitempty"`
 	MapOrder     string `json:"map_order,omitempty"` // "" | "rot" | "perm"
 	NoCallbacks  bool   `json:"no_callbacks,omitempty"`
+	LogLocks     bool   `json:"log_locks,omitempty"`
 }
 
 // Op is one operation of a scenario thread.
@@ -130,6 +131,9 @@ const (
 	evShouldUpd // A=cur B=prev C=result
 	evCostFn    // A=val
 	evApplied   // A=keyhash B=val C=flag(0 new,1 delete,2 update,3 wait marker): the applier consumed this buffered item (sequential driver)
+	evSweep     // the applier consumed a ticker tick, i.e. one expiry sweep ran (sequential driver)
+	evEst       // A=keyhash B=estimate C=1 for the incoming item's key: TinyLFU estimates just before an applier step (sequential driver)
+	evCost      // A=keyhash B=old cost (-1: newly accounted) C=new cost: accounting change made by an applier step (sequential driver)
 	evPre       // A=key B=flags(1 resident, 2 pending as a new item) C=room; logged by the sequential driver before an op
 )
 
@@ -137,7 +141,7 @@ var evNames = map[uint8]string{evSetCall: "Set?", evSetRet: "Set=", evGetCall: "
 	evWaitCall: "Wait?", evWaitRet: "Wait=", evClearCall: "Clear?", evClearRet: "Clear=", evCloseCall: "Close?", evCloseRet: "Close=",
 	evOnExit: "OnExit", evOnEvict: "OnEvict", evOnReject: "OnReject", evIterCall: "Iter?", evIterVisit: "IterVisit", evIterRet: "Iter=",
 	evGetTTLCall: "GetTTL?", evGetTTLRet: "GetTTL=", evAdvance: "advance", evTick: "tick", evRemaining: "Remaining=", evMaxCost: "MaxCost=",
-	evUpdMax: "UpdateMaxCost", evMetrics: "metrics", evMark: "mark", evShouldUpd: "ShouldUpdate", evCostFn: "CostFn", evPre: "pre", evApplied: "applied"}
+	evUpdMax: "UpdateMaxCost", evMetrics: "metrics", evMark: "mark", evShouldUpd: "ShouldUpdate", evCostFn: "CostFn", evPre: "pre", evApplied: "applied", evSweep: "sweep", evCost: "cost", evEst: "estimate"}
 
 func fmtEvents(evs []vsched.Event) []string {
 	out := make([]string, 0, len(evs))
@@ -441,6 +445,7 @@ func (s *Scenario) body(out *Exec) func() {
 		vtime.ResetClock()
 		vsched.Freeze()
 		vsched.SetPoolPoints(s.Cfg.PoolPoints)
+		vsched.SetLogLocks(s.Cfg.LogLocks)
 		switch s.Cfg.MapOrder {
 		case "rot":
 			vsched.SetMapOrder(func(n int) int { return n })
